@@ -99,6 +99,61 @@ example : ∃ s, Mutex.Reach s ∧ s.held 1 = 2 ∧ s.pc 2 = .tryLock ∧ s.pc 1
   refine ⟨_, Mutex.reach_runActs [(1, .call .lock), (1, .run 0), (1, .call .tryLock), (1, .run 0), (2, .call .tryLock),
     (1, .call .lock)] .init rfl, ?_, ?_, ?_⟩ <;> rfl
 
+/-- The recursion depth is counted: in every reachable state the POSIX mutex's count is the owner's nesting depth
+    (`held`), the mutex is free exactly when nobody is inside, an `unlock()` of a thread that is inside takes one level
+    off and frees the mutex exactly at depth 1.  `unlock()` by a thread that is NOT inside is outside the contract
+    (POSIX: EPERM for a recursive mutex, the library's `VERIFY` traps in debug builds): the model has no step for it —
+    nothing is claimed about such a client, and the controlled scheduler never schedules it. -/
+theorem mutex_recursion_depth_counted {s : Mutex.St} (h : Mutex.Reach s) :
+    (∀ o, s.m.owner = some o → s.m.count = s.held o ∧ 0 < s.held o) ∧
+    (s.m.owner = none ↔ ∀ t, s.held t = 0) ∧
+    (∀ t, s.pc t = .unlock → 0 < s.held t →
+      ∃ s', Mutex.step s t (.run 0) = some s' ∧ s'.held t + 1 = s.held t ∧ (∀ u, u ≠ t → s'.held u = s.held u) ∧
+        s'.m.owner = (if s.held t = 1 then none else some t) ∧ s'.pc t = .idle) ∧
+    (∀ t, s.pc t = .unlock → s.held t = 0 → ∀ alt, Mutex.step s t (.run alt) = none) := by
+  obtain ⟨hr, hn, ho⟩ := Mutex.inv_reach h
+  have hown : ∀ t, 0 < s.held t → s.m.owner = some t := by
+    intro t ht
+    cases hown : s.m.owner with
+    | none => have := (hn hown).2 t; omega
+    | some o =>
+      have h3 := (ho o hown).2.2
+      have e1 : t = o := Classical.byContradiction fun hne => by have := h3 t hne; omega
+      rw [e1]
+  refine ⟨?_, ?_, ?_, ?_⟩
+  · intro o hoo
+    have := ho o hoo
+    omega
+  · constructor
+    · intro hnone; exact (hn hnone).2
+    · intro hall
+      cases hown' : s.m.owner with
+      | none => rfl
+      | some o => have := ho o hown'; have := hall o; omega
+  · intro t hpc ht
+    have hot := hown t ht
+    obtain ⟨h1, h2, h3⟩ := ho t hot
+    by_cases hone : s.held t = 1
+    · have hc : s.m.count ≤ 1 := by omega
+      refine ⟨_, by simp [Mutex.step, hpc, PMutex.unlock, hot, hc]; rfl, ?_, ?_, ?_, ?_⟩
+      · simp; omega
+      · intro u hu; simp [upd, hu]
+      · simp [hone]
+      · simp
+    · have hc : ¬ s.m.count ≤ 1 := by omega
+      refine ⟨_, by simp [Mutex.step, hpc, PMutex.unlock, hot, hc]; rfl, ?_, ?_, ?_, ?_⟩
+      · simp; omega
+      · intro u hu; simp [upd, hu]
+      · simp [hone, hot]
+      · simp
+  · intro t hpc h0 alt
+    have hno : s.m.owner ≠ some t := by
+      intro hot; have := ho t hot; omega
+    by_cases ha : alt = 0
+    · subst ha; simp [Mutex.step, hpc, PMutex.unlock, hno]
+    · simp [Mutex.step, ha]
+
+
 /-! ## Semaphore -/
 
 /-- Semaphore conserves its count: successful waits never exceed the initial value plus the signals (indeed
@@ -123,6 +178,47 @@ theorem sem_conservation {c now e : Nat} {s : Sem.St} (h : Sem.Reach c now e s) 
 example : ∃ s, Sem.Reach 1 0 1 s ∧ 0 < s.count ∧ s.pc 1 = .wait ∧ s.succ = 1 := by
   refine ⟨_, Sem.reach_runActs [(1, .call .wait), (1, .run 0), (2, .call .signal), (2, .run 0), (1, .call .wait)] .init rfl,
     ?_, ?_, ?_⟩ <;> decide
+
+/-- `tryWait` never blocks: in ANY state its step is enabled and returns; it takes one unit exactly when the count is
+    positive and reports false, consuming nothing, exactly when the count is zero. -/
+theorem sem_trywait_never_blocks (s : Sem.St) (t : Tid) (hpc : s.pc t = .tryWait) :
+    ∃ s', Sem.step s t (.run 0) = some s' ∧ s'.pc t = .idle ∧ s'.posts = s.posts ∧
+      (0 < s.count → s'.ret t = some (.bool true) ∧ s'.count + 1 = s.count ∧ s'.succ = s.succ + 1) ∧
+      (s.count = 0 → s'.ret t = some (.bool false) ∧ s'.count = 0 ∧ s'.succ = s.succ) := by
+  by_cases hc : 0 < s.count
+  · refine ⟨_, by simp [Sem.step, hpc, hc]; rfl, by simp [Sem.done], by simp [Sem.done], ?_, ?_⟩
+    · intro _; refine ⟨by simp [Sem.done], ?_, by simp [Sem.done]⟩
+      simp [Sem.done]; omega
+    · intro h0; omega
+  · refine ⟨_, by simp [Sem.step, hpc, hc]; rfl, by simp [Sem.done], by simp [Sem.done], ?_, ?_⟩
+    · intro h0; omega
+    · intro h0; exact ⟨by simp [Sem.done], by simp [Sem.done]; omega, by simp [Sem.done]⟩
+
+/-- Accounting of every step a thread takes inside wait / tryWait / wait(timeout) (reachable states, every alternative
+    incl. EINTR and ETIMEDOUT): it returns true and has taken exactly one unit of a positive count; or it returns false and
+    has consumed nothing — for `tryWait` only at count zero, for the timed wait only at count zero and not before
+    `call time + time-out`; or it is the EINTR retry of the timed wait, which stays in the call with the same deadline and
+    consumes nothing.  No step of a waiter changes the number of signals. -/
+theorem sem_wait_step_accounting {c now e : Nat} {s : Sem.St} (h : Sem.Reach c now e s) (t : Tid) (alt : Nat) (s' : Sem.St)
+    (hw : Sem.waiting (s.pc t) = true) (hs : Sem.step s t (.run alt) = some s') :
+    s'.posts = s.posts ∧
+    ((s'.pc t = .idle ∧ s'.ret t = some (.bool true) ∧ 0 < s.count ∧ s'.count + 1 = s.count ∧ s'.succ = s.succ + 1) ∨
+     (s'.pc t = .idle ∧ s'.ret t = some (.bool false) ∧ s'.count = s.count ∧ s'.succ = s.succ ∧
+        (s.pc t = .tryWait → s.count = 0) ∧
+        (∀ d, s.pc t = .twait d → s.count = 0 ∧ d.t0 + d.ms * 1000000 ≤ s.now)) ∨
+     (s'.pc t = s.pc t ∧ (∃ d, s.pc t = .twait d) ∧ s'.count = s.count ∧ s'.succ = s.succ ∧ s'.eintr + 1 = s.eintr)) := by
+  have hi := Sem.inv_reach h
+  have hdl := hi.dlOk t
+  simp only [Sem.step] at hs
+  cases hpc : s.pc t <;> simp only [hpc] at hs hw hdl <;> simp [Sem.waiting] at hw
+  all_goals
+    try simp only [Sem.done] at hs
+    (repeat' split at hs) <;> simp at hs <;> (try subst hs) <;>
+      (refine ⟨by simp, ?_⟩; grind [upd, expired_iff])
+
+
+example : ∃ s, Sem.Reach 0 0 1 s ∧ Sem.waiting (s.pc 1) = true ∧ (Sem.step s 1 (.run 1)).isSome = true := by
+  refine ⟨_, Sem.reach_runActs [(1, .call (.twait 5))] .init rfl, rfl, rfl⟩
 
 /-! ## Signal -/
 
@@ -201,6 +297,19 @@ theorem signal_mutex_holder_can_step {set0 : Bool} {now spur : Nat} {s : Signal.
   | none => simp
   | some d => by_cases hd : d.ts.valid = true <;> simp [hd]
 
+/-- After set(), a FUTURE waiter returns true until reset(): a thread that calls wait() / wait(timeout) while the flag is
+    set gets through without entering the condition wait — its two steps (lock + test, unlock) are enabled as soon as the
+    internal mutex is free, return true and leave the flag set for the next waiter.  Any state.
+    (`signal_every_waiter_eventually_returns` is the fair-run version for present and future waiters.) -/
+theorem signal_future_waiter_returns_true_while_set (s : Signal.St) (u : Tid) (dl : Option Deadline)
+    (hu : s.pc u = .wLock dl) (hf : s.flag = true) (hm : s.m = none) :
+    ∃ s1 s2, Signal.step s u (.run 0) = some s1 ∧ s1.pc u = .wUnlock true dl ∧ s1.m = some u ∧ s1.flag = true ∧
+      Signal.step s1 u (.run 0) = some s2 ∧ s2.pc u = .idle ∧ s2.ret u = some (.bool true) ∧ s2.flag = true ∧ s2.m = none := by
+  refine ⟨_, _, by simp [Signal.step, hu, hm, Signal.loopHead, hf]; rfl, by simp [Signal.goto], by simp [Signal.goto],
+    by simp [Signal.goto, hf], by simp [Signal.step, Signal.goto]; rfl, by simp [Signal.done], by simp [Signal.done],
+    by simp [Signal.done, hf], by simp [Signal.done]⟩
+
+
 example : ∃ s, Signal.Reach false 0 1 s ∧ s.flag = true ∧ s.pc 1 = .wBlocked none ∧ s.pc 2 = .setBcast := by
   refine ⟨_, Signal.reach_runActs [(1, .call .wait), (1, .run 0), (1, .run 0), (2, .call .set), (2, .run 0)] .init rfl, ?_, ?_, ?_⟩ <;> rfl
 
@@ -260,6 +369,72 @@ theorem monitor_set_after_take_releases_a_waiter {now spur : Nat} {s : Monitor.S
 example : ∃ s, Monitor.Reach 0 0 s ∧ s.flag = true ∧ s.pc 1 = .wBlocked none true ∧ s.pc 2 = .setUnlock := by
   refine ⟨_, Monitor.reach_runActs [(1, .call .lock), (1, .run 0), (1, .call .wait), (1, .run 0), (2, .call .set), (2, .run 0)] .init rfl,
     ?_, ?_, ?_⟩ <;> rfl
+
+/-- A set() is not lost and is consumed by exactly one waiter.  For EVERY step of the system (any state, any thread, any
+    action): either no wait succeeds and a pending flag stays pending — in particular a set() issued before anybody waits
+    is kept until a waiter looks; or exactly one wait returns true, and that very step found the flag set and cleared it
+    (so a second waiter cannot succeed on the same set(): with `monitor_waits_le_sets`, `succ + [flag] ≤ sets`). -/
+theorem monitor_set_consumed_by_exactly_one_true_return (s s' : Monitor.St) (t : Tid) (a : Act Monitor.Op)
+    (hs : Monitor.step s t a = some s') :
+    (s'.succ = s.succ ∧ (s.flag = true → s'.flag = true)) ∨
+    (s'.succ = s.succ + 1 ∧ s.flag = true ∧ s'.flag = false ∧ s'.sets = s.sets ∧ s'.pc t = .idle ∧
+      s'.ret t = some (.bool true) ∧ ∃ dl, s.pc t = .wRelock dl false) := by
+  cases a with
+  | tick q => simp [Monitor.step] at hs; subst hs; left; simp
+  | call op =>
+    simp only [Monitor.step] at hs
+    split at hs
+    · simp at hs; subst hs; left; simp
+    · simp at hs
+  | run alt =>
+    simp only [Monitor.step] at hs
+    cases hpc : s.pc t <;> simp only [hpc] at hs
+    all_goals
+      try simp only [Monitor.goto, Monitor.done] at hs
+      (repeat' split at hs) <;> simp at hs <;> (try subst hs) <;> grind [upd]
+
+/-- `wait(timeout)` returning false ⇒ the deadline has passed and this call did not consume the flag: in every reachable
+    state, a step of a thread inside wait()/wait(timeout) that returns false is the re-acquisition after ETIMEDOUT of a
+    timed wait whose `call time + time-out` is not after the present, and it leaves flag, success and set() counters
+    untouched (a pending set() stays pending for the next waiter). -/
+theorem monitor_false_return_after_deadline_keeps_flag {now spur : Nat} {s : Monitor.St} (h : Monitor.Reach now spur s)
+    (t : Tid) (alt : Nat) (s' : Monitor.St)
+    (hw : (∃ dl, s.pc t = .wEnter dl) ∨ (∃ dl sw, s.pc t = .wBlocked dl sw) ∨ (∃ dl b, s.pc t = .wRelock dl b))
+    (hs : Monitor.step s t (.run alt) = some s') (hidle : s'.pc t = .idle) (hret : s'.ret t = some (.bool false)) :
+    s'.flag = s.flag ∧ s'.succ = s.succ ∧ s'.sets = s.sets ∧
+    ∃ d, s.pc t = .wRelock (some d) true ∧ d.t0 + d.ms * 1000000 ≤ s.now := by
+  have hi := Monitor.inv_reach h
+  have hdl := hi.dlOk t
+  have hto := hi.relockTO t
+  simp only [Monitor.step] at hs
+  rcases hw with ⟨dl, hpc⟩ | ⟨dl, sw, hpc⟩ | ⟨dl, b, hpc⟩
+  · simp only [hpc] at hs hdl
+    simp only [Monitor.goto, Monitor.done] at hs
+    (repeat' split at hs) <;> simp at hs <;> (try subst hs) <;> grind [upd, Monitor.Pc.dl]
+  · simp only [hpc] at hs
+    simp only [Monitor.goto, Monitor.done] at hs
+    (repeat' split at hs) <;> simp at hs <;> (try subst hs) <;> grind [upd]
+  · cases b with
+    | false =>
+      simp only [hpc] at hs
+      simp only [Monitor.goto, Monitor.done] at hs
+      (repeat' split at hs) <;> simp at hs <;> (try subst hs) <;> grind [upd]
+    | true =>
+      obtain ⟨hne, hall⟩ := hto dl hpc
+      cases dl with
+      | none => exact absurd rfl hne
+      | some d =>
+        have h1 := (hdl d (by rw [hpc]; rfl)).1
+        have h2 := hall d rfl
+        simp only [hpc] at hs
+        simp only [Monitor.goto, Monitor.done] at hs
+        (repeat' split at hs) <;> simp at hs <;> (try subst hs) <;>
+          first | exact ⟨rfl, rfl, rfl, d, hpc, by omega⟩ | (exfalso; grind)
+
+
+example : ∃ s, Monitor.Reach 999999999 0 s ∧ s.flag = true ∧ (∃ d, s.pc 1 = .wRelock (some d) true) ∧ s.m = none := by
+  refine ⟨_, Monitor.reach_runActs [(1, .call .lock), (1, .run 0), (1, .call (.twait 1)), (1, .run 0), (1, .tick 1000000),
+    (1, .run 1), (2, .call .set), (2, .run 0), (2, .run 0), (2, .run 0)] .init rfl, rfl, ⟨_, rfl⟩, rfl⟩
 
 /-- WHAT-IF (not the assumed semantics): if the POSIX layer let a timed-out waiter consume a concurrent signal,
     `Monitor::wait(timeout)` — which returns false on ETIMEDOUT without looking at the flag — would lose the wake-up:
@@ -554,6 +729,29 @@ theorem signal_waiter_eventually_returns {set0 : Bool} {now spur : Nat} (r : Run
       ((r.st m).ret u = some (.bool true) ∨ (dl ≠ none ∧ (r.st m).ret u = some (.bool false))) :=
   Signal.waiter_eventually_returns r h0 hwf hsf n hset u dl hu
 
+/-- After set(), every present and future waiter returns true until reset() (liveness): the same for a thread that is
+    anywhere inside wait() / wait(timeout) at a moment from which the flag stays set — blocked, just arrived, or on its way
+    back from a wake-up. -/
+theorem signal_every_waiter_eventually_returns {set0 : Bool} {now spur : Nat} (r : Run Signal.St Signal.Op Signal.step)
+    (h0 : Signal.Reach set0 now spur (r.st 0)) (hwf : WeakFair r Signal.prog) (hsf : StrongFair r Signal.lk) (n : Nat)
+    (hset : ∀ m, n ≤ m → (r.st m).flag = true) (u : Tid) (dl : Option Deadline)
+    (hu : Signal.inWait ((r.st n).pc u) = some dl) :
+    ∃ m, n ≤ m ∧ (r.st m).pc u = .idle ∧
+      ((r.st m).ret u = some (.bool true) ∨ (dl ≠ none ∧ (r.st m).ret u = some (.bool false))) :=
+  Signal.every_waiter_eventually_returns r h0 hwf hsf n hset u dl hu
+
+/-- Every Semaphore waiter returns if enough signals arrive (liveness, weak fairness only): `u` is inside wait / tryWait /
+    wait(timeout) at `n`; if at every later moment at which `u` is still inside that call the signals that arrived since
+    `n` plus the count at `n` exceed the successful waits served since `n` (other waiters may consume, as long as a
+    surplus is left when `u` looks), `u` returns — true, unless an untimed wait() is interrupted by EINTR. -/
+theorem sem_waiter_returns_if_enough_signals {c now e : Nat} (r : Run Sem.St Sem.Op Sem.step) (h0 : Sem.Reach c now e (r.st 0))
+    (hwf : WeakFair r Sem.prog) (n : Nat) (u : Tid) (hw : Sem.waiting ((r.st n).pc u) = true)
+    (henough : ∀ m, n ≤ m → (r.st m).pc u = (r.st n).pc u →
+      (r.st m).succ + (r.st n).posts < (r.st n).count + (r.st m).posts + (r.st n).succ) :
+    ∃ m, n ≤ m ∧ (r.st m).pc u = .idle ∧
+      ((r.st m).ret u = some (.bool true) ∨ ((r.st n).pc u = .wait ∧ (r.st m).ret u = some (.bool false))) :=
+  Sem.waiter_returns_if_enough_signals r h0 hwf n u hw henough
+
 /-- A set() issued after a waiter has taken the monitor eventually releases a waiter (liveness): `u` is blocked in
     the untimed wait(), a set() has stored the flag since `u` joined the wait set and the flag is still set.  On every
     run that is weakly fair, whose monitor mutex is starvation-free and on which the clients do not keep the monitor
@@ -583,6 +781,23 @@ example : WeakFair Sem.demoRun Sem.prog ∧ (∀ m, 1 ≤ m → 0 < (Sem.demoRun
     | k + 2 =>
       show 0 < Sem.d2.count
       decide
+
+/-- the extra hypotheses of `sem_waiter_returns_if_enough_signals` and `signal_every_waiter_eventually_returns` on the
+    same runs (their fairness hypotheses are the ones shown above / below) -/
+example : Sem.Reach 2 0 0 (Sem.demoRun.st 0) ∧ Sem.waiting ((Sem.demoRun.st 1).pc 1) = true ∧
+    (∀ m, 1 ≤ m → (Sem.demoRun.st m).pc 1 = (Sem.demoRun.st 1).pc 1 →
+      (Sem.demoRun.st m).succ + (Sem.demoRun.st 1).posts < (Sem.demoRun.st 1).count + (Sem.demoRun.st m).posts + (Sem.demoRun.st 1).succ) := by
+  refine ⟨.init, rfl, ?_⟩
+  intro m hm
+  match m with
+  | 1 => intro _; decide
+  | k + 2 =>
+    intro h
+    have e : (Sem.demoRun.st (k + 2)).pc 1 = Sem.d2.pc 1 := rfl
+    rw [e] at h
+    exact absurd h (by decide)
+
+example : Signal.inWait ((Signal.demoRun.st 7).pc 1) = some none ∧ (Signal.demoRun.st 7).pc 1 = .wRelock none false := ⟨rfl, rfl⟩
 
 example : Signal.Reach false 0 0 (Signal.demoRun.st 0) ∧ WeakFair Signal.demoRun Signal.prog ∧
     StrongFair Signal.demoRun Signal.lk ∧ (∀ m, 5 ≤ m → (Signal.demoRun.st m).flag = true) ∧
